@@ -58,6 +58,15 @@ Theorem C13_edge_of_enumerated_subtree_before_fix_refuted :
     scan_deps apropos keys 8 cur = Some [p_on] /\ scan_deps_old apropos keys 8 cur = Some [].
 Proof. exact edge_of_enumerated_subtree_before_fix_refuted. Qed.
 
+(* regression: before the fix the empty rest behind rDepends' trailing ',' was
+   scanned as an entry; with a same-named port inside an enabled-by sub-tree
+   the scan did not end (out of fuel here, stack overflow in the code) *)
+Theorem C13_trailing_comma_entry_before_fix_refuted :
+  entries_old [113; 44]%Z = [[113; 44]; []]%Z /\ entries [113; 44]%Z = [[113; 44]]%Z /\
+  exists apropos cur,
+    scan_deps apropos [] 40 cur = Some [] /\ scan_deps_old2 apropos [] 40 cur = None.
+Proof. exact trailing_comma_entry_before_fix_refuted. Qed.
+
 (* non-vacuity: "/b" declares default depends = "a"; file order /b, /a;
    the edge is found, is ranked, and the sort hands /a out first *)
 Theorem C13_nonvacuous :
